@@ -408,6 +408,12 @@ class Exec:
             cnt = ite(n < 0, 0, n)
             g = sq.get
             r = SSeq(cnt * ln, lambda k: g(k % ln), sq.kind)
+        elif not isinstance(ln, int):
+            # symbolic length x symbolic count: exact (no element exists when ln == 0), but nonlinear -- only usable where the
+            # value stays out of the obligations (e.g. it is handed to an opaque call)
+            cnt = ite(n < 0, 0, n) if not isinstance(n, int) else max(0, n)
+            g = sq.get
+            r = SSeq(cnt * ln, lambda k: g(k % ln), sq.kind)
         else:
             raise SymErr('sequence repeat')
         return self.fresh_like(s, r, st)
